@@ -262,13 +262,21 @@ def check_fold(case):
 def resub_case(draw):
     return {'acc': draw(st.sampled_from(sorted(ACCS))), 'seed_as': draw(st.sampled_from(['value', 'factory'])),
             'reduce': draw(st.booleans()), 'term': draw(st.booleans()), 'items': draw(gen.int_items(8)),
-            'mode': draw(st.sampled_from(['plain', 'store']))}
+            'mode': draw(st.sampled_from(['plain', 'store', 'hot2']))}
 
 
 def check_resub(case):
     tl = []
     scan, seed_obj = make_scan(case, tl)
     exp, _ = expected(case, case['items'])
+    if case['mode'] == 'hot2':
+        # one piped plain observable, two subscribers alive at the same time: each has its own fold
+        for n, r in enumerate(drive.two_subscribers(case['items'], scan)):
+            H.require_clean(r, 'subscriber %d of one piped scan observable' % n, **case)
+            if not cmp.same_seq(r.items, exp, approx=False):
+                raise Violation('subscriber %d of the same piped scan observable does not see the fold of the items' % n,
+                                expected=exp, got=r.items, **case)
+        return {'nontrivial': len(case['items']) >= 2, 'labels': ['acc:' + case['acc'], 'hot2', 'seed:' + case['seed_as']]}
     for n in (1, 2):
         if case['mode'] == 'plain':
             r = drive.collect(rx.from_(list(case['items'])).pipe(scan))
@@ -279,6 +287,63 @@ def check_resub(case):
             raise Violation('subscription %d of the same scan operator differs from the fold from the original seed' % n,
                             expected=exp, got=r.items, **case)
     return {'nontrivial': ACCS[case['acc']][3] and len(case['items']) >= 2, 'labels': ['acc:' + case['acc'], case['mode'], 'seed:' + case['seed_as']]}
+
+
+# ---------------------------------------------------------------- re-entrant delivery
+
+@st.composite
+def reentrant_case(draw):
+    return {'acc': draw(st.sampled_from(['isum', 'fsum', 'minmax', 'append', 'maybe_none'])), 'items': draw(st.lists(st.integers(-8, 8), min_size=1, max_size=8)),
+            'inject_at': draw(st.integers(0, 7)), 'inject': draw(st.integers(-8, 8)), 'grouped': draw(st.booleans())}
+
+
+def check_reentrant(case):
+    """A schedule in which the next item of a key arrives while the previous running value is still being delivered (the
+    consumer feeds the source from inside its on_next: a feedback loop).  The fold must already contain the previous item."""
+    from rx.subject import Subject
+    real, pure, seedf, _ = ACCS[case['acc']]
+    subject = Subject()
+    scan = rs.ops.scan(real, seedf)
+    ops = [rs.ops.group_by(lambda i: 0, [scan])] if case['grouped'] else [scan]
+    got = []
+    state = {'n': 0, 'err': None, 'done': 0}
+
+    def on_next(v):
+        got.append(drive.snapshot(v))
+        state['n'] += 1
+        if state['n'] == case['inject_at'] + 1:
+            subject.on_next(case['inject'])          # re-entrant push
+
+    subject.pipe(rs.state.with_memory_store(ops)).subscribe(on_next=on_next, on_error=lambda e: state.update(err=e),
+                                                           on_completed=lambda: state.update(done=state['done'] + 1))
+    order = []
+    try:
+        for k, x in enumerate(case['items']):
+            order.append(x)
+            before = state['n']
+            subject.on_next(x)
+            if before <= case['inject_at'] < state['n'] and len(order) == k + 1 + 0:
+                pass
+        subject.on_completed()
+    except Exception as e:
+        raise Violation('exception escaped a re-entrant push: %r' % (e,), **case)
+    if state['err'] is not None or state['done'] != 1:
+        raise Violation('re-entrant schedule: stream failed or did not complete', error=repr(state['err']), **case)
+    # the order in which items reach the fold: the injected one directly after the item whose output triggered it
+    seq = []
+    for k, x in enumerate(case['items']):
+        seq.append(x)
+        if k == case['inject_at']:
+            seq.append(case['inject'])
+    a = seedf()
+    exp = []
+    for x in seq:
+        a = pure(a, x)
+        exp.append(copy.deepcopy(a))
+    if not cmp.same_seq(got, exp, approx=False):
+        raise Violation('running folds under a re-entrant schedule differ from the fold of the items in arrival order',
+                        arrival_order=seq, expected=exp, got=got, **case)
+    return {'nontrivial': case['inject_at'] < len(case['items']), 'labels': ['acc:' + case['acc'], 'grouped' if case['grouped'] else 'root']}
 
 
 # ---------------------------------------------------------------- operators defined through scan
@@ -372,6 +437,8 @@ def subs(tier):
             doc='scan with generated accumulator/seed/reduce/terminator per key lifetime vs pure left fold; metamorphic reduce<->stream; isolation'),
         Sub('resubscribe', check_resub, gen=resub_case, examples={'quick': 600, 'thorough': 30000},
             doc='two subscriptions of the same scan operator both start from the original seed (plain and multiplexed)'),
+        Sub('reentrant', check_reentrant, gen=reentrant_case, examples={'quick': 500, 'thorough': 30000},
+            doc='the next item of a key is pushed from inside the delivery of the previous running value (feedback loop)'),
         Sub('derived', check_derived, gen=derived_case, examples={'quick': 2000, 'thorough': 150000},
             doc='count, sum, mean, min, max, variance, stddev, formal.*, to_list, to_array, batch, distinct_until_changed, progress, dist.update vs list definitions per key lifetime'),
     ]
